@@ -222,6 +222,7 @@ def guards_strict(repo: Repo, rep: Report) -> None:
     G.register_predicates({q: f for q, f in mod.funcs.items() if q.startswith("SegmentationBuilder2D.") or "." not in q})
 
     callsites: Dict[str, List[Tuple[ast.Call, G.Facts]]] = {}
+    entry_of_ref: List[Any] = [None]
 
     def walk(f: ast.FunctionDef, cur: Optional[str], entry: Optional[G.Facts] = None) -> None:
         params = [a.arg for a in f.args.args if a.arg != "self"]
@@ -232,6 +233,8 @@ def guards_strict(repo: Repo, rep: Report) -> None:
         def on_expr(n: ast.AST, facts: G.Facts) -> None:
             if isinstance(n, ast.Call) and isinstance(n.func, ast.Attribute) and isinstance(n.func.value, ast.Name) and n.func.value.id == "self":
                 callsites.setdefault(n.func.attr, []).append((n, facts))
+            if isinstance(n, ast.Call) and isinstance(n.func, ast.Name) and n.func.id in nested:
+                nested_calls.setdefault(n.func.id, []).append((n, facts))
             if isinstance(n, ast.Call) and isinstance(n.func, ast.Attribute) and n.func.attr in ("append", "add") and len(n.args) == 1:
                 v = n.args[0]
                 if isinstance(v, ast.IfExp) and isinstance(v.body, ast.Tuple) and isinstance(v.orelse, ast.Tuple) and \
@@ -247,10 +250,20 @@ def guards_strict(repo: Repo, rep: Report) -> None:
                     and isinstance(n.elts[1].op, ast.Add) and isinstance(n.elts[1].right, ast.List) and len(n.elts[1].right.elts) == 1:
                 move_values.append((n, facts, cur_here or "current"))
 
+        nested: Dict[str, ast.FunctionDef] = {}
+        nested_calls: Dict[str, List[Tuple[ast.Call, G.Facts]]] = {}
+
         def on_nested(nfn: ast.FunctionDef, _f: G.Facts) -> None:
-            walk(nfn, cur_here)
+            nested[nfn.name] = nfn
 
         G.Walker(on_expr=on_expr, on_nested=on_nested).run_function(f, entry)
+        # a nested helper is analysed under what holds at every one of its calls, restated over its parameters; one that is also
+        # passed around as a value (or called before its definition was seen) gets no entry facts
+        scope = {a.arg for a in f.args.args} | {n.id for n in ast.walk(f) if isinstance(n, ast.Name) and isinstance(n.ctx, ast.Store)}
+        for nm, nfn in nested.items():
+            escapes = any(isinstance(x, ast.Name) and x.id == nm and isinstance(x.ctx, ast.Load) for x in ast.walk(f)) and \
+                sum(1 for x in ast.walk(f) if isinstance(x, ast.Name) and x.id == nm and isinstance(x.ctx, ast.Load)) != len(nested_calls.get(nm, []))
+            walk(nfn, cur_here, None if escapes else entry_of_ref[0](nfn, nested_calls.get(nm, []), scope))
 
     # the helper methods reachable from candidates() through self.<m>(...)
     reach: Dict[str, ast.FunctionDef] = {"candidates": fn}
@@ -271,28 +284,98 @@ def guards_strict(repo: Repo, rep: Report) -> None:
                     and n.func.attr in reach and n.func.attr != m:
                 callers[n.func.attr].add(m)
 
-    def entry_facts(m: str) -> Optional[G.Facts]:
-        """what holds at every call of helper m, restricted to what still means the same inside it: facts over `self.<attr>` and over
-        the parameters that every call passes under their own name (a guard such as `if n > self.min_num_blocks:` around the call)"""
-        calls = callsites.get(m, [])
+    module_names = {q for q in mod.funcs if "." not in q} | {"len", "self", "min", "max", "sum", "abs", "int"}
+
+    def rename_facts(facts: G.Facts, f_: ast.FunctionDef, call: ast.Call, free: Set[str] = frozenset()) -> G.Facts:
+        """the facts of one call site, restated over the callee's parameters: every occurrence of an argument expression becomes the
+        parameter it is bound to; a fact that still mentions a caller-side name afterwards is out of scope in the callee and is dropped"""
+        params = [a.arg for a in f_.args.args if a.arg != "self"]
+        passed = {p: a for p, a in zip(params, call.args)}
+        passed.update({k.arg: k.value for k in call.keywords if k.arg})
+        by_text = {norm(a): p_ for p_, a in passed.items()}
+        # a closure reads the enclosing function's names at the time of the call: those it does not shadow keep their meaning
+        own = {a.arg for a in f_.args.args} | {n.id for n in ast.walk(f_) if isinstance(n, ast.Name) and isinstance(n.ctx, ast.Store)}
+        allowed = module_names | set(by_text.values()) | (set(free) - own)
+
+        class Sub(ast.NodeTransformer):
+            depth = 0
+
+            def generic_visit(self, node: ast.AST) -> ast.AST:
+                if isinstance(node, ast.expr) and norm(node) in by_text:
+                    return ast.Name(id=by_text[norm(node)], ctx=ast.Load())
+                if isinstance(node, ast.Name) and node.id not in allowed and self.depth < 4:
+                    # a caller local with a single known definition (num_blocks = len(current)) stands for that expression
+                    d = facts.definition(node.id)
+                    if d is not None:
+                        try:
+                            tree = ast.parse(d, mode="eval").body
+                        except SyntaxError:
+                            return node
+                        self.depth += 1
+                        try:
+                            return self.generic_visit(tree)
+                        finally:
+                            self.depth -= 1
+                return super().generic_visit(node)
+
+            visit = generic_visit  # type: ignore[assignment]
+
+        def rn(text: str) -> Optional[str]:
+            try:
+                tree = ast.parse(text, mode="eval").body
+            except SyntaxError:
+                return None
+            tree = Sub().generic_visit(tree)
+            for x in ast.walk(tree):
+                if isinstance(x, ast.Name) and x.id not in allowed:
+                    return None
+            return norm(tree)
+
+        def rn_form(form: L.Form) -> Optional[L.Form]:
+            out: L.Form = {}
+            for k, v in form.items():
+                if not isinstance(k, str):
+                    out[k] = v
+                    continue
+                info = L.SYMINFO.get(k)
+                if info is not None and info[0] != "len":
+                    return None
+                k2 = rn(k)
+                if k2 is None:
+                    return None
+                if info is not None:
+                    inner = rn(info[1])
+                    if inner is None:
+                        return None
+                    L.SYMINFO[k2] = ("len", inner)
+                out[k2] = out.get(k2, 0) + v
+            return out
+
+        lin = [g for g in (rn_form(f0) for f0 in facts.lin) if g is not None]
+        neq = [g for g in (rn_form(f0) for f0 in facts.neq) if g is not None]
+        tr = [t2 for t2 in (rn(t) for t in facts.true) if t2 is not None]
+        fa = [t2 for t2 in (rn(t) for t in facts.false) if t2 is not None]
+        return G.Facts(lin, neq, tr, fa, ())
+
+    def entry_of(f_: ast.FunctionDef, calls: List[Tuple[ast.Call, G.Facts]], free: Set[str] = frozenset()) -> Optional[G.Facts]:
+        """what holds at every call of a helper, restated over its parameters (a guard such as `if n > self.min_num_blocks:` or
+        `if self._can_give(current, i, j, c):` around the call); names the helper assigns mean something else inside it"""
         if not calls:
             return None
-        f_ = reach[m]
-        params = [a.arg for a in f_.args.args if a.arg != "self"]
-        same = set(params)
-        for call, _facts in calls:
-            passed = {p: a for p, a in zip(params, call.args)}
-            passed.update({k.arg: k.value for k in call.keywords if k.arg})
-            same &= {p for p, a in passed.items() if isinstance(a, ast.Name) and a.id == p}
         acc: Optional[G.Facts] = None
-        for _call, facts in calls:
-            acc = facts if acc is None else acc.join(facts)
+        for call, facts in calls:
+            if any(isinstance(a, ast.Starred) for a in call.args) or any(k.arg is None for k in call.keywords):
+                return None
+            r = rename_facts(facts, f_, call, free)
+            acc = r if acc is None else acc.join(r)
         assert acc is not None
-        # names assigned in the helper, and parameters bound to something else, mean something different inside
-        local = {n.id for n in ast.walk(f_) if isinstance(n, ast.Name) and isinstance(n.ctx, ast.Store)} | (set(params) - same)
-        acc = acc.havoc(local)
-        # caller locals that are not parameters of the helper are out of scope: keep them only through their definitions
-        return acc
+        local = {n.id for n in ast.walk(f_) if isinstance(n, ast.Name) and isinstance(n.ctx, ast.Store)}
+        return acc.havoc(local)
+
+    entry_of_ref[0] = entry_of
+
+    def entry_facts(m: str) -> Optional[G.Facts]:
+        return entry_of(reach[m], callsites.get(m, []))
 
     walked: Set[str] = set()
     order = ["candidates"]
